@@ -27,7 +27,8 @@ pub trait Engine: Sync {
 
 pub fn engine_for(prop: &str) -> Option<&'static dyn Engine> {
     match prop {
-        "C07" | "C08" | "C10" => Some(&crate::e1::E1),
+        "C07" | "C08" => Some(&crate::e1::E1),
+        "C10" => Some(&crate::combo::C10),
         "C09" => Some(&crate::combo::C09),
         "C06" | "C19" => Some(&crate::e5::E5),
         "C11" | "C12" | "C18" => Some(&crate::e2::E2),
